@@ -23,6 +23,9 @@ structure Global where
   errLine : Nat := 0                 -- last_scanned_line_nr
   deriving Repr, DecidableEq
 
+/-- `econf_reset_security_settings` -/
+def resetSecurity (g : Global) : Global := { g with ownerSet := false, groupSet := false, allowSymlinks := true }
+
 /-- observable I/O of a read: callback invocations and opened files, in order -/
 inductive Event where
   | cb (path : Str)
@@ -82,6 +85,12 @@ def readOpened (ctx : RdCtx) (s : RdState) (join python : Bool) (abs delim comme
 def absPath (fs : FS) (path : Str) : Option Str :=
   if path.head? == some SLASH then some path else fs.realpath path
 
+/-- the caller's check callback: the call is logged and counted; no callback = accepted -/
+def askCallback (cb : Callback) (s : RdState) (path : Str) : RdState × Bool :=
+  match cb with
+  | none => (s, true)
+  | some f => ({ s with trace := s.trace ++ [Event.cb path], calls := s.calls + 1 }, f s.calls path)
+
 /-- `read_file_with_callback` on a fresh object carrying the flags `join`/`python`.
     Returns the object on success. -/
 def readFileCB (ctx : RdCtx) (s : RdState) (join python : Bool) (path delim comment : Str) :
@@ -93,9 +102,7 @@ def readFileCB (ctx : RdCtx) (s : RdState) (join python : Bool) (path delim comm
     | some e => (s, .error e)
     | none =>
       -- the caller's check
-      let (s, accepted) := match ctx.cb with
-        | none => (s, true)
-        | some f => ({ s with trace := s.trace ++ [Event.cb path], calls := s.calls + 1 }, f s.calls path)
+      let (s, accepted) := askCallback ctx.cb s path
       if !accepted then (s, .error .parsingCallbackFailed)
       else
         match absPath ctx.fs path with
